@@ -269,7 +269,7 @@ def caller_subsets(r, pfx, avoid):
         h = "%sh%d" % (pfx, j)
         ops.append({"k": "open_r", "h": h, "p": p, "kind": kind, "nrows": pick(r, ["given", "count"])})
         handles.append((h, p, fform, tab, kind))
-    for _ in range(r.randrange(3, 13)):
+    for _ in range(r.randrange(3, 13) if not (LONG[0] and chance(r, 0.12)) else r.randrange(13, 40)):
         x = r.random()
         if x < 0.12:
             h, p, fform, tab, kind = pick(r, handles)
@@ -317,6 +317,8 @@ def caller_history(r, pfx, avoid):
         state[p] = {"delim": pick(r, DELIMS_C03) if txt else None, "form": wpick(r, [("sfile", 4), ("raw", 1)]),
                     "fields": None, "exists": False, "h": None, "rows": 0, "pow2": chance(r, 0.03)}
     nops = r.randrange(3, 13)
+    if LONG[0] and chance(r, 0.12):
+        nops = r.randrange(13, 45)          # thorough tier: longer histories
     for _ in range(nops):
         p = pick(r, sorted(state))
         s = state[p]
@@ -520,8 +522,12 @@ def caller_own(r, pfx, avoid):
 
 # =========================================================================== plan
 
+LONG = [False]
+
+
 def plan(S, prop, mode, tier, avoid):
     cfg = S.py("config")
+    LONG[0] = (tier == "thorough")
     ncallers = wpick(cfg, [(1, 5), (2, 3), (3, 2)])
     callers = []
     for c in range(ncallers):
